@@ -301,6 +301,7 @@ pub fn run_input(input: &Value) -> Case {
     out["impl_backoffs_ms"] = json!(r.backoffs_ms);
     if let Some(p) = &r.panic { out["impl_panic"] = json!(p); }
     if r.hang { out["impl_hang"] = json!(true); }
+    if let Some(v) = &r.violation { out["impl_violation"] = json!(v); }
     let n_http = r.jtrace.iter().filter(|s| s.starts_with("http ")).count();
     let n_checks = r.jtrace.iter().filter(|s| s.starts_with("result ")).count();
     let class = format!("{}{}checks{}{}", if input["entry"] == "oneshot" { "oneshot-" } else { "" }, if input["cup"].is_null() { "" } else { "cup-" }, n_checks.min(5),
